@@ -96,6 +96,8 @@ func letterClass(c byte) string {
 		return "zero"
 	case 'z':
 		return "zero-variable"
+	case 'h', 'o', 'y':
+		return "zero-derivative-only"
 	case 't', 'u', 'n':
 		return "tiny"
 	case 'I', 'J':
@@ -157,7 +159,7 @@ func patternClass(cs *Case, slots [3]slot, p int) string {
 				if letterVal(c) != 0 {
 					allZero = false
 				}
-				if (slots[i].kind == 'v' && cs.Stor[i] == 'd') || c == 'z' {
+				if (slots[i].kind == 'v' && cs.Stor[i] == 'd') || c == 'z' || c == 'h' || c == 'o' {
 					phys = true
 				}
 			}
@@ -445,7 +447,7 @@ func rankOf(cs *Case, ti int) int64 {
 	for _, p := range []string{cs.R, cs.A, cs.B} {
 		for i := 0; i < len(p); i++ {
 			switch p[i] {
-			case '1', 'm', 'z', 't', 'u', 'n', 'q', 'I', 'J', 'N':
+			case '1', 'm', 'z', 'h', 'o', 'y', 't', 'u', 'n', 'q', 'I', 'J', 'N':
 				nz++
 			case 'e':
 				ex++
@@ -517,6 +519,9 @@ func dryRun(c *vf.Ctx, fams []*family) {
 				c.Count("dry:TOTAL-equals-eps", n)
 			default:
 				c.Count("dry:TOTAL-base", n)
+			}
+			if f.derivOnlyAlphabet() {
+				c.Count("dry:TOTAL-derivative-only-alphabet", n)
 			}
 			c.Count("dry:TOTAL", n)
 		}
@@ -654,6 +659,33 @@ func minimalLife(cs *Case, t *tinfo) (string, verdict) {
 	return cs.Life, verdict{}
 }
 
+// minimalRecv (families over the derivative-only alphabet): if the failure of cs also
+// occurs with a receiver that holds nothing before the call (no entries / all zero),
+// return that prior content.
+func minimalRecv(cs *Case, t *tinfo) (string, verdict) {
+	if k := opSlots(cs.Op, cs.Dims)[0].kind; k != 'v' && k != 'm' {
+		return cs.R, verdict{}
+	}
+	z := "_"
+	if cs.Stor[0] == 'd' {
+		z = "0"
+	}
+	r := strings.Repeat(z, len(cs.R))
+	if r == cs.R {
+		return cs.R, verdict{}
+	}
+	cp := *cs
+	cp.R = r
+	if v := judge(&cp, t, expected(&cp, t.class)); v.fail {
+		return r, v
+	}
+	return cs.R, verdict{}
+}
+
+func (f *family) derivOnlyAlphabet() bool {
+	return f.levels[0] == 8 || f.levels[1] == 8 || f.levels[2] == 8
+}
+
 func explore(c *vf.Ctx) {
 	fams := families(c.Tier)
 	if os.Getenv("C03_DRY") != "" {
@@ -706,6 +738,10 @@ func explore(c *vf.Ctx) {
 		}
 		var groupEvals int64
 		defer func(g string) { counts["evaluations:"+g] += groupEvals }(group)
+		if f.derivOnlyAlphabet() {
+			// also counted in its group (base, concrete-entry-point or receiver-life)
+			defer func() { counts["evaluations:with-derivative-only-alphabet"] += groupEvals }()
+		}
 		for _, stor := range storages(f) {
 			pr := patterns(f.slots[0], stor[0], f.levels[0], f.varM)
 			pa := patterns(f.slots[1], stor[1], f.levels[1], f.varM)
@@ -792,6 +828,11 @@ func explore(c *vf.Ctx) {
 											cp.Life, v = ml, mv
 										}
 									}
+									if f.derivOnlyAlphabet() {
+										if mr, mv := minimalRecv(&cp, t); mr != cp.R {
+											cp.R, v = mr, mv
+										}
+									}
 									fk := v.key
 									if cp.Hist != "" {
 										fk += "|after=" + histClass(cp.Hist)
@@ -865,6 +906,7 @@ func main() {
 			"(v) receiver lives: every operation with a container receiver after every sequence of 1..2 whole-container writers {Reset, Set(all-zero dense), Set(all-zero sparse), Set(constants 1/-2 dense), Set(the same sparse), matrices: SetIdentity} and, as one-step lives, Reset on every non-empty slice/sub-matrix and on one empty slice, applied to the receiver (prior content from the full alphabet, with variables for Real) before the judged call; the model's receiver is the content after the life; all 9 element types; " +
 			"(vi) concrete entry points: the same products for VADDV VSUBV VMULV VDIVV VADDS VSUBS VMULS VDIVS MDOTV VDOTM MADDM..MDIVS MDOTM OUTER SET EQUALS, called by name on the receiver's dynamic type, in the storage combinations where receiver and container operands share one storage class (all dense, all sparse) and the type has a method of that name taking the operands' concrete types; all 9 element types, Real types also with variables in receiver and operands (gradient and Hessian compared); " +
 			"(vii) joint-iterator traversals: Vector.JointIterator, ConstVector.ConstJointIterator (also SparseConst receivers and operands) and Matrix.JointIterator over receiver × operand patterns × storage, walked by the programs {plain; clone (CloneJointIterator | CloneConstJointIterator) after k steps, clone advanced j steps, original continued} for all k in 0..size, j in 1..size: every stream strictly increasing, no position skipped where receiver or operand is non-zero, yielded elements = the elements at the position; " +
+			"(viii) derivative-only elements (Real32 and Real64, order 2): the operations of the base product, their concrete entry points and one-step receiver lives over the per-position alphabet dense {0, x, z, h, o, y} / sparse {no entry, explicit zero, x, z, h, o, y} with x a non-zero variable and, all of value 0, z = a variable at 0 (gradient only), h = x_k*x_k at 0 (one diagonal Hessian entry only), o = x_k*x_l at (0,0) (off-diagonal Hessian entries only), y = a zero with allocated all-zero derivatives of order 2; the number of variables is the number the letters introduce (1, 2 and more occur); vectors n=1, 1x1 matrices: the alphabet in receiver prior content and both operands (and the scalar operand) at once; vectors n=2, 1x2/2x1 matrices, products with n*k*m<=2 (thorough: 2x2, n=2 in all slots at once): in one slot at a time resp. in both operands of a product; value, gradient and every Hessian entry compared; " +
 			"every configuration is distinct by construction; one is counted non-trivial when the library returned a result that was compared element-wise with the dense reference model over at least one element (or an Equals verdict); runs ending in a panic shared with the all-dense configuration are counted as evaluations only",
 		Assume: []string{
 			"a panic is an acceptable outcome of a configuration iff the all-dense configuration of the same mathematical content panics as well (loud failure itself is C20's subject)",
@@ -873,6 +915,7 @@ func main() {
 			"a failure under a receiver life is attributed to the shortest sub-life (possibly none) that still shows it; a walk program whose k exceeds the length of the stream, or whose clone kind the iterator does not offer, is counted as evaluation only",
 			"a SparseConst vector with an explicitly stored zero is built with UnsafeSparseConst<T>Vector from sorted index/value lists; every other one with NewSparseConst<T>Vector",
 			"a failure under a history is attributed to the shortest sub-history (possibly the empty one) that still shows it",
+			"derivative-only elements are written through the scalar interface (Alloc, SetHessian, SetVariable) into the element returned by At; a failure in a family over the derivative-only alphabet is attributed to the empty receiver (no entries / all zero) when that still shows it",
 		},
 		Run:       explore,
 		SoftLimit: map[string]time.Duration{"quick": 100 * time.Second, "thorough": 14 * time.Minute},
